@@ -53,7 +53,7 @@ static int ref_envelope(const std::string &e, std::string &records) {
 
 struct C01 : Scenario {
   const Config &cfg; std::vector<Input> inputs; const Input *in = nullptr; int qpid = 0;
-  std::string exp_mess, exp_env; int exp_exit = 0; bool finished = false; int exitcode = -1; bool killed = false, crashed = false;
+  std::string exp_mess, exp_env; int exp_exit = 0; bool finished = false; int exitcode = -1; bool killed = false, crashed = false, signalled = false;
   bool committed_before_end = false;
   C01(const Config &c) : cfg(c) { inputs = make_inputs(c); }
 
@@ -73,6 +73,7 @@ struct C01 : Scenario {
     if (World::intrinsic_local(r.op) && r.op != VK_FSTAT) return;
     if (r.op == VK_EXIT) { a.push_back({BK_CRASH, ALT_MACHINE_CRASH, 0}); return; }
     a.push_back({BK_CRASH, ALT_KILL, 0});
+    if (!signalled) a.push_back({BK_ENV, ALT_SIGNAL, SIGALRM});   // the program's own 24-hour timer (or anyone's SIGALRM) may fire before any call
     a.push_back({BK_CRASH, ALT_MACHINE_CRASH, 0});
     Ofd *o = (r.op == VK_READ || r.op == VK_WRITE || r.op == VK_FSYNC || r.op == VK_FTRUNCATE || r.op == VK_FSTAT) ? w.O(p, r.a[0]) : nullptr;
     switch (r.op) {
@@ -122,6 +123,7 @@ struct C01 : Scenario {
 
   void after_step(World &w, Proc &p, const Step &st) override {
     (void) p;
+    if (st.sigraised) { signalled = true; w.counters["signals_delivered"]++; return; }
     if (st.op == VK_KILL) { killed = true; w.counters["process_kills"]++; check_tree(w, "after the process was killed", true); return; }
     check_tree(w, ("after " + opname(st.op) + " #" + std::to_string(w.total_steps)).c_str(), false);
     if (st.injected && st.err) w.counters["faults_injected"]++;
@@ -144,10 +146,11 @@ struct C01 : Scenario {
     if (finished) {
       w.counters[exitcode == 0 ? "exits_success" : "exits_failure"]++;
       if (exitcode == 0 && !committed) { w.violation(key, "qmail-queue reported success but nothing is in todo/"); return; }
-      if (exitcode != 0 && committed) { w.violation(key, "qmail-queue exited " + std::to_string(exitcode) + " but the message was committed"); return; }
+      // after a signal a failure report for a fully queued message is within the statement ("either fully queued ... or not visible")
+      if (exitcode != 0 && committed && !signalled) { w.violation(key, "qmail-queue exited " + std::to_string(exitcode) + " but the message was committed"); return; }
       if (exitcode >= 1000) { w.violation(key, "qmail-queue died from signal " + std::to_string(exitcode - 1000)); return; }
-      if (w.counters["faults_injected"] == 0 && exitcode != exp_exit) { w.violation(key, "exit code " + std::to_string(exitcode) + ", documented " + std::to_string(exp_exit) + " for this envelope"); return; }
-      if (w.counters["faults_injected"] == 0 && exitcode == 0) {
+      if (w.counters["faults_injected"] == 0 && !signalled && exitcode != exp_exit) { w.violation(key, "exit code " + std::to_string(exitcode) + ", documented " + std::to_string(exp_exit) + " for this envelope"); return; }
+      if (w.counters["faults_injected"] == 0 && exitcode == 0) {   // (also after a signal: success still promises durability)
         // success: durable means nothing of the message may still be unsynced
         for (auto &n : k.listdir("/var/qmail/queue/todo")) { Inode *t = k.file("/var/qmail/queue/todo/" + n); if (t->synced != t->data) { w.violation(key, "success reported with unsynced envelope"); return; } }
         // and the daemon was signalled: one byte in the trigger, or no reader (ENXIO) -- here no daemon runs, so nothing to check
